@@ -17,6 +17,9 @@ def malloc_generic_pairs():
                  timeout=900, unwind=24, objbits=12, mem_gb=12, stub_bodies={"src": "stubs/bodies/find_page.c", "remove": ["mi_find_page"]},
                  replace=["mi_heap_collect", "_mi_heap_delayed_free_partial/c_delayed_free_partial_rec", "_mi_deferred_free", "_mi_page_malloc_zero", "_mi_page_malloc",
                           "mi_page_to_full/c_page_to_full_rec", "_mi_memzero_aligned", "mi_option_get_clamp", "mi_option_get"])]
+def queue_pairs():
+    Q = lambda n, f: dict(name=n, entry="h_" + n, harness="harness/page_queue.c", enforce=f, label="P", functions=[f], timeout=300, unwind=20, replace=["mi_heap_queue_first_update/c_first_update_rec"])
+    return [Q("queue_remove", "mi_page_queue_remove"), Q("queue_push", "mi_page_queue_push"), Q("queue_enqueue_from", "mi_page_queue_enqueue_from_ex")]
 def find_page_pair():
     return dict(name="find_page", entry="h_find_page", harness="harness/find_page.c", enforce="mi_find_page", label="P", functions=["mi_find_page"], timeout=300, unwind=14,
                 replace=["mi_large_huge_page_alloc/c_large_huge_rec", "mi_find_free_page/c_find_free_rec"])
